@@ -26,6 +26,14 @@ Theorem C30_exists_conformant_plan_complete :
 Proof. exact exists_conformant_plan_complete. Qed.
 Print Assumptions C30_exists_conformant_plan_complete.
 
+(* ... and the answer "yes" is witnessed by a conformant plan within the bound *)
+Theorem C30_exists_conformant_plan_sound :
+  forall K P insts inits n,
+    exists_conformant_plan K P insts inits n = Some true ->
+    exists pi, plan_over insts pi /\ length pi <= n /\ conformant_check P (map fst_of inits) pi = true.
+Proof. exact exists_conformant_plan_sound. Qed.
+Print Assumptions C30_exists_conformant_plan_sound.
+
 (* soundness validator: when [sound_check] accepts a compiled problem CP with plan-back table [back], every valid plan
    of CP of length <= n maps back to a plan that is conformant for the original problem P and the possible initial
    states [inits] *)
@@ -93,6 +101,10 @@ Definition ex_false : fstate := [(0%N, [], VBool false)].
 
 Example C30_exists_conformant_plan_complete_nonvacuous :
   exists_conformant_plan ex_K (ex_P []) [] [ex_false] 2 = Some false.
+Proof. vm_compute. reflexivity. Qed.
+
+Example C30_exists_conformant_plan_sound_nonvacuous :
+  exists_conformant_plan ex_K (ex_P [(0%N, ex_set)]) [(0%N, [])] [ex_false] 2 = Some true.
 Proof. vm_compute. reflexivity. Qed.
 
 Example C30_sound_check_correct_nonvacuous :
